@@ -81,14 +81,26 @@ def rtJ : Rt → Json
   | .arr c => jarr [jstr "arr", jbool c] | .user i => jarr [jstr "user", jstr i]
   | .none => jstr "none" | .err => jstr "err"
 
-/-- straight-line run over run-time kinds: `[lhs, hasSub, expr, loops]` per statement -/
-def rtRun (F : RtFuns) : List (Name × Bool × Expr × List Name) → (Name → Rt) → List Json → List Json
+inductive RtStmt where
+  | assign (lhs : Name) (hasSub : Bool) (e : Expr) (loops : List Name)
+  | call (lhs : List Name) (f : Name) (args : List Expr) (kw : List (Name × Expr))
+
+/-- straight-line run over run-time kinds: `[lhs, hasSub, expr, loops]` or
+    `["call", [lhs...], f, args, kw]` per statement; what is stored is listed per assignee
+    (a call whose result count does not fit its assignees: `["raises"]`) -/
+def rtRun (F : RtFuns) : List RtStmt → (Name → Rt) → List Json → List Json
   | [], _, acc => acc
-  | (lhs, hasSub, e, loops) :: rest, ρ, acc =>
+  | .assign lhs hasSub e loops :: rest, ρ, acc =>
     let ρl : Name → Rt := fun x => if loops.contains x then .int else ρ x
     let v := rtEval F ρl e
     bif hasSub then rtRun F rest ρ (acc ++ [jarr [jstr lhs, jstr "elem", rtJ v]])
     else rtRun F rest (fun x => if x = lhs then v else ρ x) (acc ++ [jarr [jstr lhs, rtJ v]])
+  | .call lhs f args kw :: rest, ρ, acc =>
+    let rs := F f (rtEvalL F ρ args) (rtEvalK F ρ kw)
+    let ρ' := execCallRt F ρ lhs f args kw
+    let raises := lhs.length ≥ 2 && rs.length != lhs.length
+    let line := bif raises then [jarr [jstr "raises"]] else lhs.map (fun x => jarr [jstr x, rtJ (ρ' x)])
+    rtRun F rest ρ' (acc ++ line)
 
 def handle (op : String) (j : Json) : R Json := do
   match op with
@@ -120,7 +132,12 @@ def handle (op : String) (j : Json) : R Json := do
       | .error e => pure (jobj [("err", errJ e)])
   | "rt" =>
     let prog ← listOf (fun p => match p with
-      | .arr #[.str lhs, hasSub, e, loops] => do pure (lhs, ← bool? hasSub, ← exprOf e, ← listOf str? loops)
+      | .arr #[.str "call", lhs, .str f, args, kw] => do
+        let kws ← listOf (fun q => match q with
+          | .arr #[.str k, v] => do pure (k, ← exprOf v)
+          | _ => throw "bad rt kw") kw
+        pure (RtStmt.call (← listOf str? lhs) f (← listOf exprOf args) kws)
+      | .arr #[.str lhs, hasSub, e, loops] => do pure (RtStmt.assign lhs (← bool? hasSub) (← exprOf e) (← listOf str? loops))
       | _ => throw "bad rt stmt") (← field j "prog")
     let init ← listOf (fun p => match p with
       | .arr #[.str n, r] => do pure (n, ← rtOf r)
